@@ -193,7 +193,12 @@ class Enc:
 
     def text(self, longest):
         """string payload: random short by default; `strlen` pins the length (capped at the type's longest), maximal uses the longest"""
-        n = longest if self.maximal else self.r.below(8) if self.strlen is None else min(self.strlen, longest)
+        if isinstance(self.strlen, tuple):
+            # (k, n): only the k-th string written gets n bytes (uncapped: used for over-limit inputs), the others stay short
+            self.nstr = getattr(self, "nstr", 0) + 1
+            n = self.strlen[1] if self.nstr - 1 == self.strlen[0] else self.r.below(4)
+        else:
+            n = longest if self.maximal else self.r.below(8) if self.strlen is None else min(self.strlen, longest)
         return bytes(97 + self.r.below(26) for _ in range(n))
 
     def steer_value(self, vid, w):
